@@ -32,7 +32,13 @@ __attribute__((no_sanitize("thread"), no_sanitize("address"))) static unsigned l
     for (listNode_t *nd = snoopy_tsrm_threadRepo_data.first; nd && n < 16; nd = nd->next, n++) { int who = 9; snoopy_tsrm_threadData_t *td = nd->value; if (td) for (int i = 0; i < N; i++) if ((unsigned long)td->threadId == ptid[i]) who = i; h = h * 31 + (unsigned long long)who + 1; }
     return h * 31 + (unsigned long long)snoopy_tsrm_threadRepo_data.count;
 }
-static int cb(int is_execve, const char *p, char *const a[], char *const e[]) { (void)is_execve; (void)p; (void)a; (void)e; if (me >= 0) rec_calls[me]++; else rec_calls[7]++; errno = ENOENT; return -1; }
+/* descriptors the image started by THIS exec would inherit although the caller never opened them: anything that is open without
+   close-on-exec at the moment of the real exec and was not open before the threads started (e.g. another thread's log file) */
+static unsigned char fd_base[256]; static int inheritable_seen, inheritable_fd = -1;
+static void fd_baseline(void) { for (int fd = 0; fd < 256; fd++) fd_base[fd] = fcntl(fd, F_GETFD) >= 0; }
+static int cb(int is_execve, const char *p, char *const a[], char *const e[]) { (void)is_execve; (void)p; (void)a; (void)e; if (me >= 0) rec_calls[me]++; else rec_calls[7]++;
+    for (int fd = 3; fd < 256; fd++) { int fl; if (!fd_base[fd] && (fl = fcntl(fd, F_GETFD)) >= 0 && !(fl & FD_CLOEXEC)) { __atomic_add_fetch(&inheritable_seen, 1, __ATOMIC_RELAXED); __atomic_store_n(&inheritable_fd, fd, __ATOMIC_RELAXED); } }
+    errno = ENOENT; return -1; }
 static void one_call(int t, int j) {
     char path[64], a1[64], a2[64]; snprintf(path, sizeof path, "/t%d/prog%d", t, j); snprintf(a1, sizeof a1, "arg-t%d-j%d", t, j); snprintf(a2, sizeof a2, "T%dT%dT%d", t, t, t);
     char *av[] = { "cmd", a1, a2, NULL }; char *ev[] = { "A=1", NULL };
@@ -66,6 +72,7 @@ int main(int argc, char **argv) {
     umask(027);
     if (getenv("VS_STDIN_PTY")) { int m = posix_openpt(O_RDWR | O_NOCTTY); grantpt(m); unlockpt(m); int sl = open(ptsname(m), O_RDWR | O_NOCTTY); dup2(sl, 0); close(sl); }
     vs_init(N); vs_state_cb = state_digest;
+    fd_baseline();
     pthread_t th[8];
     for (long i = 0; i < N; i++) pthread_create(&th[i], NULL, body, (void *)i);
     vs_run();
@@ -80,8 +87,8 @@ int main(int argc, char **argv) {
     fprintf(f, "{\"n\":%d,\"k\":%d,\"ptid\":[", N, K); for (int i = 0; i < N; i++) fprintf(f, "%s%lu", i ? "," : "", ptid[i]);
     fprintf(f, "],\"rec_calls\":["); for (int i = 0; i < N; i++) fprintf(f, "%s%d", i ? "," : "", rec_calls[i]);
     int badr = 0; for (int i = 0; i < 8; i++) badr += bad_ret[i];
-    fprintf(f, "],\"lone_rec_calls\":%d,\"bad_ret\":%d,\"repo_count\":%d,\"repo_first_null\":%d,\"repo_last_null\":%d,\"mutex_trylock\":%d,\"child_status\":%d,\"child_reached\":%d,\"steps\":%d,\"umask_end\":%d}\n",
-            rec_calls[7], badr, count, first_null, last_null, tl, child_status, child_reached, vs_steps(), (int)um_end);
+    fprintf(f, "],\"lone_rec_calls\":%d,\"bad_ret\":%d,\"repo_count\":%d,\"repo_first_null\":%d,\"repo_last_null\":%d,\"mutex_trylock\":%d,\"child_status\":%d,\"child_reached\":%d,\"steps\":%d,\"umask_end\":%d,\"inheritable_at_exec\":%d,\"inheritable_fd\":%d}\n",
+            rec_calls[7], badr, count, first_null, last_null, tl, child_status, child_reached, vs_steps(), (int)um_end, inheritable_seen, inheritable_fd);
     fclose(f);
     return 0;
 }
